@@ -53,7 +53,9 @@ CONSTANTS
     \* ---- segmentation
     SgMaxVars,     \* number of segmentation variables
     SgLevelSets,   \* set of sequences of integers: the values a discrete variable takes
-    SgShiftSeqs,   \* set of sequences of rationals: one shift per level
+    SgCatMaps,     \* set of sequences of category numbers: cats[j] = category of the j-th value (several values may share one)
+    SgDupVars,     \* many-to-one mappings are explored in segmentations of at most this many variables
+    SgShiftSeqs,   \* set of sequences of rationals: one shift per CATEGORY
     SgRefVals,     \* reference values of the parameter
     SgPrefixes,    \* prefixes offered to the code generator (indices, the driver maps them to strings)
     \* ---- nests
@@ -77,6 +79,8 @@ SetMax(S)  == CHOOSE m \in S : \A k \in S : k <= m
 SetMin(S)  == CHOOSE m \in S : \A k \in S : m <= k
 Last(s)    == s[Len(s)]
 SeqToSet(s) == {s[i] : i \in 1..Len(s)}
+RECURSIVE SumNat(_)
+SumNat(s) == IF s = << >> THEN 0 ELSE Head(s) + SumNat(Tail(s))
 Dot(bs, vs) == SumSeq([i \in 1..Len(bs) |-> Mul(bs[i], vs[i])])
 \* the constant sqrt(2 pi) is a primitive of the term language (its argument is a placeholder)
 Sqrt2Pi == App("sqrt2pi", <<Zero>>)
@@ -381,51 +385,87 @@ RgRecord ==
 RgEmit == RgDone => PrintT(ToJson(RgRecord))
 
 (***************************************************************************)
-(* SEGMENTED PARAMETER.  A discrete variable with levels vals[1..n] shifts *)
-(* the parameter: in the reference level by nothing, in level j by         *)
-(* shifts[j].  With several variables the shifts add up.  refpos = 0       *)
-(* stands for "reference not given": the library may then choose any       *)
-(* level, so the expected value is given for each possible choice.         *)
+(* SEGMENTED PARAMETER.  A discrete variable takes the values vals[1..n];  *)
+(* the user maps every VALUE to a CATEGORY, cats[j] being the category of  *)
+(* vals[j].  Several values may share a category (1 -> young, 2 -> young,  *)
+(* 3 -> adult); the plain case is one category per value.  The parameter   *)
+(* is shifted per CATEGORY: in the reference category by nothing, in       *)
+(* category q by shifts[q], whatever value of that category the row holds. *)
+(* There is exactly one shift parameter per non-reference category.  With  *)
+(* several variables the shifts add up.  refcat = 0 stands for "reference  *)
+(* not given": the library may then choose any category, so the expected   *)
+(* value is given for each possible choice.                                *)
 (***************************************************************************)
+SgNCats(seg) == Cardinality({seg.cats[j] : j \in 1..Len(seg.cats)})
+SgIsPlain(cm) == \A j \in 1..Len(cm) : cm[j] = j
+\* shift of the row whose variable holds vals[j], when category rc is the reference
+SgShiftOf(seg, rc, j) ==
+    IF Mutation = "shift-per-value"
+    THEN (IF seg.cats[j] = rc THEN Zero ELSE seg.shifts[IF j <= Len(seg.shifts) THEN j ELSE 1])
+    ELSE IF seg.cats[j] = rc THEN Zero ELSE seg.shifts[seg.cats[j]]
 SgValue(ref, segs, refs, row) ==
-    SumSeq(<<ref>> \o [k \in 1..Len(segs) |->
-                         IF row[k] = refs[k] THEN Zero ELSE segs[k].shifts[row[k]]])
+    SumSeq(<<ref>> \o [k \in 1..Len(segs) |-> SgShiftOf(segs[k], refs[k], row[k])])
+\* the free shift parameters: one per (variable, non-reference category)
+SgParams(segs, refs) == {kq \in (1..Len(segs)) \X (1..3) : kq[2] <= SgNCats(segs[kq[1]]) /\ kq[2] # refs[kq[1]]}
 SgTuples(segs) == {f \in [1..Len(segs) -> 1..3] : \A k \in 1..Len(segs) : f[k] <= Len(segs[k].vals)}
+SgCatTuples(segs) == {f \in [1..Len(segs) -> 1..3] : \A k \in 1..Len(segs) : f[k] <= SgNCats(segs[k])}
 SgRefChoices(segs) ==
-    {f \in SgTuples(segs) : \A k \in 1..Len(segs) : segs[k].refpos # 0 => f[k] = segs[k].refpos}
+    {f \in SgCatTuples(segs) : \A k \in 1..Len(segs) : segs[k].refcat # 0 => f[k] = segs[k].refcat}
 
 SgInit == stage = "ref" /\ c = [ref |-> Zero, segs |-> << >>, row |-> << >>, prefix |-> 0]
 SgChooseRef == stage = "ref" /\ \E r \in SgRefVals, px \in SgPrefixes :
                   c' = [c EXCEPT !.ref = r, !.prefix = px] /\ stage' = "vars"
+\* many-to-one mappings are explored in segmentations of at most SgDupVars variables
+SgMayAdd(segs, cm) ==
+    IF Len(segs) + 1 <= SgDupVars THEN TRUE
+    ELSE SgIsPlain(cm) /\ \A k \in 1..Len(segs) : SgIsPlain(segs[k].cats)
 SgAddVar ==
     /\ stage = "vars" /\ Len(c.segs) < SgMaxVars
-    /\ \E lv \in SgLevelSets, sh \in SgShiftSeqs :
-          /\ Len(sh) = Len(lv)
-          /\ \E rp \in 0..Len(lv) :
-                /\ rp = 0 => Len(c.segs) = 0          \* "reference not given" is explored on the first variable
-                /\ c' = [c EXCEPT !.segs = Append(@, [vals |-> lv, refpos |-> rp, shifts |-> sh])]
+    /\ \E lv \in SgLevelSets, cm \in {m \in SgCatMaps : SgMayAdd(c.segs, m)}, sh \in SgShiftSeqs :
+          /\ Len(cm) = Len(lv)
+          /\ Len(sh) = Cardinality({cm[j] : j \in 1..Len(cm)})
+          /\ \E rc \in 0..Len(sh) :
+                /\ rc = 0 => Len(c.segs) = 0          \* "reference not given" is explored on the first variable
+                /\ c' = [c EXCEPT !.segs = Append(@, [vals |-> lv, cats |-> cm, refcat |-> rc, shifts |-> sh])]
     /\ UNCHANGED stage
 SgCloseVars == stage = "vars" /\ Len(c.segs) >= 1 /\ stage' = "row" /\ UNCHANGED c
 SgChooseRow == stage = "row" /\ \E r \in SgTuples(c.segs) : c' = [c EXCEPT !.row = r] /\ stage' = "done"
 SgNext == SgChooseRef \/ SgAddVar \/ SgCloseVars \/ SgChooseRow
 SgSpec == SgInit /\ [][SgNext]_vars
 SgDone == stage = "done"
-\* in the reference segment the parameter has its reference value
+\* categories are numbered 1..q without holes, every value has one
+SgWellFormed == SgDone => \A k \in 1..Len(c.segs) :
+    /\ Len(c.segs[k].cats) = Len(c.segs[k].vals)
+    /\ {c.segs[k].cats[j] : j \in 1..Len(c.segs[k].cats)} = 1..SgNCats(c.segs[k])
+    /\ Len(c.segs[k].shifts) = SgNCats(c.segs[k])
+    /\ c.segs[k].refcat \in 0..SgNCats(c.segs[k])
+\* in every segment of the reference categories the parameter has its reference value
 SgReferenceSegment == SgDone =>
-    \A refs \in SgRefChoices(c.segs) : SgValue(c.ref, c.segs, refs, refs) = c.ref
+    \A refs \in SgRefChoices(c.segs) : \A row \in SgTuples(c.segs) :
+        (\A k \in 1..Len(c.segs) : c.segs[k].cats[row[k]] = refs[k]) => SgValue(c.ref, c.segs, refs, row) = c.ref
 \* each variable contributes its own shift, independently of the others
 SgAdditive == SgDone =>
     \A refs \in SgRefChoices(c.segs) : \A k \in 1..Len(c.segs) : \A j \in 1..Len(c.segs[k].vals) :
         LET row2 == [c.row EXCEPT ![k] = j]
-            sh(i) == IF i = refs[k] THEN Zero ELSE c.segs[k].shifts[i]
+            sh(i) == IF c.segs[k].cats[i] = refs[k] THEN Zero ELSE c.segs[k].shifts[c.segs[k].cats[i]]
         IN  QSub(SgValue(c.ref, c.segs, refs, row2), SgValue(c.ref, c.segs, refs, c.row)) = QSub(sh(j), sh(c.row[k]))
+\* two values of one category are the same segment: the parameter does not distinguish them
+SgSameCategory == SgDone =>
+    \A refs \in SgRefChoices(c.segs) : \A k \in 1..Len(c.segs) : \A j \in 1..Len(c.segs[k].vals) :
+        c.segs[k].cats[j] = c.segs[k].cats[c.row[k]] =>
+            SgValue(c.ref, c.segs, refs, [c.row EXCEPT ![k] = j]) = SgValue(c.ref, c.segs, refs, c.row)
+\* one shift parameter per non-reference category
+SgParameterCount == SgDone =>
+    \A refs \in SgRefChoices(c.segs) :
+        Cardinality(SgParams(c.segs, refs)) = SumNat([k \in 1..Len(c.segs) |-> SgNCats(c.segs[k]) - 1])
 SgRecord ==
     [fam |-> "segmentation", ref |-> Compact(c.ref), prefix |-> c.prefix,
      segs |-> [k \in 1..Len(c.segs) |->
-                 [vals |-> c.segs[k].vals, refpos |-> c.segs[k].refpos, shifts |-> CompactSeq(c.segs[k].shifts)]],
+                 [vals |-> c.segs[k].vals, cats |-> c.segs[k].cats, refcat |-> c.segs[k].refcat,
+                  shifts |-> CompactSeq(c.segs[k].shifts)]],
      row |-> c.row,
-     expected |-> {[refs |-> refs, value |-> Compact(SgValue(c.ref, c.segs, refs, c.row))] :
-                       refs \in SgRefChoices(c.segs)}]
+     expected |-> {[refs |-> refs, value |-> Compact(SgValue(c.ref, c.segs, refs, c.row)),
+                    params |-> SgParams(c.segs, refs)] : refs \in SgRefChoices(c.segs)}]
 SgEmit == SgDone => PrintT(ToJson(SgRecord))
 
 (***************************************************************************)
